@@ -482,9 +482,14 @@ def shrink(ops, still_fails, budget=80):
 def crash_signature(ops):
     """re-run a script under ASan/UBSan and return (crashed, first diagnostic line)"""
     rc, out, err = run_harness("h_store", "CASE x\nRESET\n" + "\n".join(ops) + "\n", asan=True, timeout=300)
-    if rc == 0:
+    diagnosed = any(("runtime error:" in l or "ERROR: AddressSanitizer" in l) for l in err.splitlines())
+    if rc == 0 or not diagnosed:
+        # the sanitizer build does not show it (layout dependent, e.g. an uninitialised size field): ask valgrind about the plain build
         rc2, _, err2 = run_harness("h_store", "CASE x\nRESET\n" + "\n".join(ops) + "\n", asan=False, timeout=300)
-        return (rc2 != 0), ("plain build rc=%d %s" % (rc2, err2[-200:])) if rc2 != 0 else ""
+        vg = valgrind_first_error(ops)
+        if rc2 == 0 and rc == 0 and not vg:
+            return False, ""
+        return True, "plain build rc=%d, sanitizer build rc=%d; valgrind: %s" % (rc2, rc, vg or "-")
     for l in err.splitlines():
         if "runtime error:" in l or "ERROR: AddressSanitizer" in l:
             sig = l.strip()
@@ -502,8 +507,33 @@ def crash_signature(ops):
     return True, (sig[:160] + " @ " + site)
 
 
+def valgrind_first_error(ops):
+    import shutil
+    if not shutil.which("valgrind"):
+        return ""
+    exe = os.path.join(build_repo(), "h_store")
+    try:
+        r = sh(["valgrind", "-q", "--error-limit=no", exe], input="CASE x\nRESET\n" + "\n".join(ops) + "\n", timeout=600)
+    except subprocess.TimeoutExpired:
+        return ""
+    lines = r.stderr.splitlines()
+    for i, l in enumerate(lines):
+        if "Conditional jump or move depends on uninitialised" in l or "Invalid write" in l or "Invalid read" in l or "Invalid free" in l:
+            for l2 in lines[i + 1:i + 8]:
+                if "qsopt_ex" in l2 or "_mpq.c" in l2 or "_dbl.c" in l2 or "_mpf.c" in l2:
+                    return l.split("== ", 1)[-1].strip() + " " + l2.split("== ", 1)[-1].strip()
+            return l.split("== ", 1)[-1].strip()
+    return ""
+
+
 def crash_site(sig):
-    """coarse site key used in known-finding matches: source file of the first library frame"""
+    """coarse site key used in known-finding matches: function (or source file) of the first library frame"""
     import re
+    if sig.startswith("plain build"):
+        m = re.search(r"(?:at|by) 0x[0-9A-F]+: (\w+) \(", sig)
+        return re.sub(r"^(mpq|dbl|mpf)_", "", m.group(1)) if m else "plain-build-only"
+    m = re.search(r"@ (?:0x[0-9a-f]+ in )?(\w+) qsopt_ex/", sig)
+    if m:
+        return re.sub(r"^(mpq|dbl|mpf)_", "", m.group(1))
     m = re.search(r"qsopt_ex/(\w+?)(?:_mpq|_dbl|_mpf)?\.c", sig)
     return m.group(1) if m else "?"
